@@ -9,6 +9,7 @@
     * interactive  — the driver prints `NEED <prim>` and the harness answers by performing the very
       same `rand` call on a shadow clone of the generator the real code consumed.
 -/
+import Uec.Model.Floats
 namespace Uec
 
 /-- One constructor per `rand` primitive the three library crates call. -/
@@ -87,9 +88,9 @@ end Rand
 
 /-- The contract of each primitive: which answers `rand` can give. -/
 def Prim.valid : Prim → Ans → Prop
-  | .f32, .bits w => w.toNat < 2 ^ 32   -- further: the f32 lies in [0,1); see `F32.unit`
+  | .f32, .bits w => w.toNat < 2 ^ 32 ∧ F32.unit w.toNat   -- one of the grid points k·2⁻²⁴, 0 ≤ k < 2²⁴
   | .bool, .bool _ => True
-  | .boolP _, .bool _ => True
+  | .boolP p, .bool b => ∀ c, F64.certain p = some c → b = c   -- p = 0 ↦ false, p = 1 ↦ true
   -- `Bernoulli::from_ratio(num, den)`: probability 0 never yields `true`, probability 1 never `false`
   | .ratio num den, .bool b => (b = true → 0 < num) ∧ (b = false → num < den)
   | .range lo hi, .nat n => lo ≤ n ∧ n < hi
